@@ -66,40 +66,48 @@ func runSystemScenarios(c *Ctx) {
 		}
 		return ps
 	}
+	// long(call, n): the n-th call of that kind fails 14 times in a row (more than any small retry
+	// budget a reconciler could be given: a key that is given up after k < 14 failures is lost for
+	// good when nothing else re-adds it, e.g. the one-shot (JobConfig, schedule time) keys of cron)
+	long := func(call string, n int) []*sysFaultPlan {
+		return []*sysFaultPlan{nth(call, n, "err", 14), nth(call, n, "timeout", 14)}
+	}
 	// 1. cron: the create of the Job of (JobConfig, schedule time) fails, then succeeds
 	runSystemScenario(c, "cron-create-fails", sysScenarioWorkload(
 		[]sysJCSpec{sysJC("alpha", execution.ConcurrencyPolicyAllow, 0, "0/20 * * * * * *")},
 		[]sysStim{{Kind: "createJC", JC: 0, Chaos: 3}, {Kind: "advance", D: 20, Tick: true, Chaos: 4}, {Kind: "advance", D: 20, Tick: true}}),
-		all("create:jobs", 1))
+		append(all("create:jobs", 1), long("create:jobs", 1)...))
 	// 2. queue: the start write of an Enqueue Job fails (counter must be rolled back), a second Job waits behind it
 	runSystemScenario(c, "queue-start-fails", sysScenarioWorkload(
 		[]sysJCSpec{sysJC("beta", execution.ConcurrencyPolicyEnqueue, 1, "")},
 		[]sysStim{{Kind: "createJC", JC: 0}, {Kind: "adhoc", JC: 0, Name: "adhoc-1", Chaos: 5}, {Kind: "adhoc", JC: 0, Name: "adhoc-2", Chaos: 5},
 			{Kind: "podStart", Name: "adhoc-1-gezdqo-0"}, {Kind: "podFinish", Name: "adhoc-1-gezdqo-0", Chaos: 6}}),
-		append(all("update:jobs:status", 1), nth("update:jobs:status", 2, "err", 2)))
+		append(append(all("update:jobs:status", 1), nth("update:jobs:status", 2, "err", 2)), long("update:jobs:status", 1)...))
 	// 3. queue: the start write of an independent Job fails
 	runSystemScenario(c, "independent-start-fails", sysScenarioWorkload(nil,
 		[]sysStim{{Kind: "indep", Name: "indep-1", Chaos: 2}, {Kind: "podStart", Name: "indep-1-gezdqo-0"}, {Kind: "podFinish", Name: "indep-1-gezdqo-0"}}),
-		all("update:jobs:status", 1))
+		append(all("update:jobs:status", 1), long("update:jobs:status", 1)...))
 	// 4. job controller: the pod create fails
 	runSystemScenario(c, "pod-create-fails", sysScenarioWorkload(nil,
 		[]sysStim{{Kind: "indep", Name: "indep-1", Chaos: 4}, {Kind: "podStart", Name: "indep-1-gezdqo-0"}, {Kind: "podFinish", Name: "indep-1-gezdqo-0"}}),
-		all("create:pods", 1))
+		append(all("create:pods", 1), long("create:pods", 1)...))
 	// 5. job controller: the status update after the pod create fails (the pod is adopted on retry)
 	runSystemScenario(c, "status-update-after-create-fails", sysScenarioWorkload(nil,
 		[]sysStim{{Kind: "indep", Name: "indep-1"}, {Kind: "podStart", Name: "indep-1-gezdqo-0"}, {Kind: "podFinish", Name: "indep-1-gezdqo-0"}}),
-		[]*sysFaultPlan{nth("update:jobs:status", 2, "err", 1), nth("update:jobs:status", 2, "conflict", 2), nth("update:jobs:status", 3, "timeout", 3)})
+		[]*sysFaultPlan{nth("update:jobs:status", 2, "err", 1), nth("update:jobs:status", 2, "conflict", 2), nth("update:jobs:status", 3, "timeout", 3), nth("update:jobs:status", 2, "err", 14)})
 	// 6. jobconfig controller: the status update fails
 	runSystemScenario(c, "jobconfig-status-fails", sysScenarioWorkload(
 		[]sysJCSpec{sysJC("gamma", execution.ConcurrencyPolicyForbid, 0, "")},
 		[]sysStim{{Kind: "createJC", JC: 0, Chaos: 2}, {Kind: "adhoc", JC: 0, Name: "adhoc-1", Chaos: 3}, {Kind: "podStart", Name: "adhoc-1-gezdqo-0"},
 			{Kind: "podFinish", Name: "adhoc-1-gezdqo-0"}}),
-		append(all("update:jobconfigs:status", 1), all("update:jobconfigs:status", 2)...))
+		append(append(all("update:jobconfigs:status", 1), all("update:jobconfigs:status", 2)...), long("update:jobconfigs:status", 1)...))
 	// 7. job controller: kill => pod delete fails; TTL => job delete fails; finalizer update fails
 	runSystemScenario(c, "kill-and-cleanup-fail", sysScenarioWorkload(nil,
 		[]sysStim{{Kind: "indep", Name: "indep-1"}, {Kind: "podStart", Name: "indep-1-gezdqo-0"}, {Kind: "kill", Name: "indep-1", Chaos: 3},
 			{Kind: "podGone", Name: "indep-1-gezdqo-0"}, {Kind: "advance", D: 60, Tick: true}, {Kind: "advance", D: 61, Tick: true}}),
-		append(append(all("delete:pods", 1), all("delete:jobs", 1)...), all("update:jobs", 1)...))
+		append(append(append(all("delete:pods", 1), all("delete:jobs", 1)...), all("update:jobs", 1)...), long("delete:jobs", 1)...))
+	// (no long burst on delete:pods: 14 back-offs delay the finish by ~3 s, so the TTL of the faulty
+	// run legitimately expires after the last barrier of this workload)
 	// 8. cron + Forbid: the Job of the next schedule time is skipped in both runs although the
 	//    create of the first one was delayed by faults
 	runSystemScenario(c, "cron-forbid-create-fails", sysScenarioWorkload(
